@@ -70,13 +70,20 @@ def configs(tier):
                       fail=[0, 0])))
   big.append((p, dict(driver='MultiplexIterator', srcs=[1, 1, 1], par=3)))
   big.append((p, dict(driver='MultiplexIterator', srcs=[1, 1, 1], par=2, fail=[1, 0])))
+  quick = [('1 helper + consumer, preemption bound 2', 2, small),
+           ('2 helpers + consumer, preemption bound 1', 1, mid),
+           ('3-4 helpers + consumer, preemption bound 0 (free switches at blocking points)', 0, big)]
   if tier == 'quick':
-    return [('1 helper + consumer, preemption bound 2', 2, small),
-            ('2 helpers + consumer, preemption bound 1', 1, mid),
-            ('3-4 helpers + consumer, preemption bound 0 (free switches at blocking points)', 0, big)]
-  return [('1 helper + consumer, preemption bound 3', 3, small),
-          ('2 helpers + consumer, preemption bound 2', 2, mid),
-          ('3-4 helpers + consumer, preemption bound 1', 1, big)]
+    return quick
+  # thorough: the quick groups first, then one more preemption, cheapest group
+  # first (the wall-clock budget of the check cuts what does not fit; the cut
+  # is reported as a cap)
+  core = [c for c in mid if c[1]['driver'] in ('multiplex', 'MultiplexIterator')
+          and c[1].get('src', 'gen') == 'gen'][:12]
+  return quick + [
+      ('3-4 helpers + consumer, preemption bound 1', 1, big),
+      ('1 helper + consumer, preemption bound 3', 3, small),
+      ('2 helpers + consumer (multiplex / MultiplexIterator), preemption bound 2', 2, core)]
 
 
 def run(ctx):
